@@ -5,7 +5,7 @@ SPEC = {
     "tests": [
         {"name": "TestProfile", "quick": 24000, "thorough": 1600000, "shards_quick": 8, "shards_thorough": 16,
          "timeout": 1500},
-        {"name": "TestImplicitStartRace", "quick": 1600, "thorough": 160000, "shards_quick": 8, "shards_thorough": 16, "timeout": 1500,
+        {"name": "TestImplicitStartRace", "quick": 3200, "thorough": 160000, "shards_quick": 8, "shards_thorough": 16, "timeout": 1500,
          "race_thorough": True},
     ],
     "rule": ("rapid generator over const/line/step/once configs (whole-second, 100ms-, ms-, us- and ns-granular durations; "
@@ -14,7 +14,7 @@ SPEC = {
              "(math/big). Non-trivial = at least 2 tokens and (fractional-second duration, or from != to, or a zero end-point, "
              "or >= 2 step levels); distinct = distinct config tuples (hash of the case). "
              "TestImplicitStartRace: one generated once/const/line/step profile left UNSTARTED (as the engine leaves RPS schedules), "
-             "2-8 goroutines released together drain it, 16 rounds per case; one start instant inside the measured window must "
+             "2-8 goroutines released together drain it, 48 rounds per case; one start instant inside the measured window must "
              "explain every token (reference recomputed from the inferred start); non-trivial = >= 2 tokens."),
     "floors": {"TestProfile/fractional_duration": 0.25, "TestProfile/line_decreasing": 0.05,
                "TestProfile/zero_endpoint": 0.05, "TestProfile/via_config": 0.3, "TestProfile/step_multi_level": 0.02},
